@@ -56,6 +56,24 @@ fn main() {
             let part_name = v["part"].as_str().unwrap_or("core");
             let tier = v["tier"].as_str().and_then(Tier::parse).unwrap_or(Tier::Quick);
             let prop = vharness::props::find(id).expect("property");
+            if part_name == "custom" && (id == "C17" || id == "C18") {
+                // bounded-exhaustive finding: explicit scheduler choices
+                let case: vharness::sched_checks::SchedCase = serde_json::from_value(v["case"]["case"].clone()).expect("explicit schedule case");
+                let focus = if id == "C17" { vharness::sched_checks::SF::C17 } else { vharness::sched_checks::SF::C18 };
+                let out = vharness::sched_checks::judge(&case, focus, Some(true));
+                println!("case: {}", serde_json::to_string(&v["case"]).unwrap());
+                match out.violation {
+                    Some(viol) => {
+                        println!("clause: {}\nexpected: {}\nobserved: {}", viol.clause, viol.expected, viol.observed);
+                        println!("VIOLATION property={} replay={} signature={}:exhaustive", id, path, viol.signature);
+                        std::process::exit(1);
+                    }
+                    None => {
+                        println!("no violation on this tree");
+                        std::process::exit(0);
+                    }
+                }
+            }
             let Some(part) = prop.parts.iter().find(|p| p.name == part_name) else {
                 eprintln!("replay: part {part_name} is not byte-driven; see the case in the file");
                 std::process::exit(2);
